@@ -160,11 +160,13 @@ def make_problem(spec):
     elif cname == "tinyhalf":
         cons = lambda X: (np.atleast_2d(X)[:, 0] - 1.0) * 1e-10  # noqa: E731
     elif cname == "stripes":   # the box minus thin stripes: a lot of boundary, feasibility changes within a fraction of a mesh step
-        cons = lambda X: (np.mod(np.atleast_2d(X)[:, 0] * 3.0 + 0.37, 1.0) < 0.1).astype(float)  # noqa: E731
+        cons = lambda X: (np.mod(np.atleast_2d(X)[:, 0] * 4.0, 1.0) < 0.1).astype(float)  # noqa: E731  (every other node of a 1/8 grid is infeasible)
     elif cname == "lattice":   # feasible only on a coarse lattice: ES populations collapse to few or zero survivors
         cons = lambda X: np.any(np.abs(np.atleast_2d(X) / 0.25 - np.round(np.atleast_2d(X) / 0.25)) > 1e-9, axis=1).astype(float)  # noqa: E731
     xk = spec.get("x0", "given")
-    if xk == "absent":
+    if spec.get("x0_value") is not None:
+        x0 = np.asarray(spec["x0_value"], dtype=float)
+    elif xk == "absent":
         x0 = None
     elif xk == "atopt":       # started AT the optimum: no improvement from the first iteration on (stall windows)
         x0 = np.clip(np.asarray(center, dtype=float), np.asarray(lb) + 1e-3, np.asarray(ub) - 1e-3) if np.all(np.isfinite(lb)) else np.asarray(center, dtype=float)
